@@ -20,7 +20,7 @@
 //!       (`new` of a failed CAS is `-`: the hooks do not see the value it wanted to write)
 //!   X <tid> <kind> <trees|local|lowerpad|other> <byte offset> <width> <found> <new|-> <ok>   access outside lower
 //!   RET <tid> ok <frame> | ok | err mem|arg|init | panic <file:line> <msg>
-//!   SNAP <step> ents=.. rows=.. stats=ff,fh,ft | SNAP <step> panic <file:line> <msg>
+//!   SNAP <step> ents=.. rows=.. stats=ff,fh,ft [tstats=<fast free> validate=ok|panic ..] | SNAP <step> panic <file:line> <msg>
 //!       (--snapshots) a crash here: the lower buffer is copied and recovered (`Init::Recover`, fresh
 //!       zeroed trees/local buffers); printed after the prologue and after every step that wrote to
 //!       the lower buffer, i.e. once for every memory state = before every write and at the end
@@ -1085,7 +1085,29 @@ fn builtin_upper() -> Vec<Scenario> {
     );
     add("u-custom-get-get", cu(), false, 2, vec![g(0, 2, Some(0))], vec![vec![g(0, 0, Some(0))], vec![g(0, 2, Some(0))]]);
     add("u-zeroslot-get-get", zs(), false, 2, vec![], vec![vec![g(0, 1, Some(0))], vec![g(0, 0, Some(0))]]);
+    // --- a partial last tree (half a huge frame + 7 frames behind two whole trees): allocations in the partial huge frame
+    v.push(Scenario {
+        name: "u-partial-getat-get".into(),
+        alloc_all: false,
+        frames: 2 * tf + HUGE_FRAMES / 2 + 7,
+        pre: vec![],
+        threads: vec![vec![ga(2 * tf + 3, 0, 0, None), ga(2 * tf + 64, 6, 0, None)], vec![g(0, 0, Some(0))]],
+        cfg: s1(),
+        upper: true,
+    });
+    v.push(Scenario {
+        name: "u-partial-exhaust".into(),
+        alloc_all: true,
+        frames: 2 * tf + HUGE_FRAMES / 2 + 7,
+        pre: vec![UPut { frame: 2 * tf + HUGE_FRAMES / 2 + 6, order: 0, class: 0, local: None }, UPut { frame: 2 * tf + 1, order: 0, class: 0, local: None }],
+        threads: vec![vec![g(0, 0, Some(0))], vec![g(0, 0, None)]],
+        cfg: s1(),
+        upper: true,
+    });
     // --- three threads
+    let mut add = |name: &str, cfg: UCfg, alloc_all: bool, trees: usize, pre: Vec<CallSpec>, threads: Vec<Vec<CallSpec>>| {
+        v.push(Scenario { name: name.into(), alloc_all, frames: trees * tf, pre, threads, cfg, upper: true });
+    };
     add("u-mix3-get-get-drain", s1(), false, 2, vec![g(0, 0, Some(0))], vec![vec![g(0, 0, Some(0))], vec![g(0, 1, Some(0))], vec![UDrain]]);
     add(
         "u-mix3-get-put-get9",
@@ -1304,21 +1326,35 @@ impl<'a> Exec<'a> {
         let frames = self.scn.frames;
         let q = QUIET.with(|t| t.replace(true));
         let classing = self.scn.cfg.classing();
+        let upper = self.scn.upper;
         let r = catch_unwind(AssertUnwindSafe(|| {
             let a = LLFree::new(frames, Init::Recover, &classing, env.snap.meta()).expect("recover");
-            a.stats()
+            let st = a.stats();
+            // whole-allocator runs: the recovered instance's fast count and its own validation
+            let extra = if upper {
+                let ts = a.tree_stats().free_frames;
+                let v = match catch_unwind(AssertUnwindSafe(|| a.validate())) {
+                    Ok(()) => "ok".to_string(),
+                    Err(_) => format!("panic {}", PANIC_MSG.with(|m| m.borrow().clone())),
+                };
+                format!(" tstats={ts} validate={v}")
+            } else {
+                String::new()
+            };
+            (st, extra)
         }));
         QUIET.with(|t| t.set(q));
         match r {
-            Ok(s) => {
+            Ok((s, extra)) => {
                 let _ = writeln!(
                     self.text,
-                    "SNAP {} {} stats={},{},{}",
+                    "SNAP {} {} stats={},{},{}{}",
                     self.nsteps,
                     dump_state(env.snap.lower, frames),
                     s.free_frames,
                     s.free_huge,
-                    s.free_trees
+                    s.free_trees,
+                    extra
                 );
             }
             Err(_) => {
